@@ -125,11 +125,19 @@ func c04Check(c c04Case, r *ev.Recorder) *Failure {
 			case cell.Shift && len(cell.Reduces) > 1:
 				mixed++
 				w.exact = false
-				w.allowed = append([]int{-1}, cell.Reduces...)
+				// a reduction may win against the shift only where precedence decides so; a choice
+				// precedence cannot decide defaults to shift (or stays the %nonassoc error)
+				w.allowed = []int{-1}
+				sawErr := false
 				for _, rl := range cell.Reduces {
-					if refResolve(&g, rl, term) == 'e' {
-						w.allowed = append(w.allowed, -2)
-						break
+					switch refResolve(&g, rl, term) {
+					case 'r':
+						w.allowed = append(w.allowed, rl)
+					case 'e':
+						if !sawErr {
+							sawErr = true
+							w.allowed = append(w.allowed, -2)
+						}
 					}
 				}
 			case cell.Shift:
@@ -284,9 +292,9 @@ func c04Check(c c04Case, r *ev.Recorder) *Failure {
 func TestC04(t *testing.T) {
 	p := &prop[c04Case]{
 		ID:   "C04",
-		Rule: "grammars: 50% mutated ambiguous expression seeds (binary/unary/ternary/postfix operators, dangling else, juxtaposition), 50% C01 generator; 1..4 %left/%right/%nonassoc groups over distinct terminals (some operators left undeclared), %prec on 25% of the rules; built as lalr.Grammar. Reference: LALR(1) automaton by canonical LR(1)+merge, each shift/reduce cell decided by the documented rule (rule precedence = %prec terminal else last terminal; higher group wins; equal: left reduce, right shift, nonassoc error; undeclared side or eoi lookahead => conflict, default shift; reduce/reduce => conflict, earlier rule). Cells with one shift and one reduction and reduction-only cells are compared exactly, cells with a shift and several reductions by a validity predicate; SR/RR and the %expect error are compared when no such mixed cell exists. Non-trivial: at least one cell decided by precedence; distinct by grammar JSON.",
+		Rule: "grammars: 50% mutated ambiguous expression seeds (binary/unary/ternary/postfix operators, dangling else, juxtaposition), 50% C01 generator; 1..4 %left/%right/%nonassoc groups over distinct terminals (some operators left undeclared), %prec on 25% of the rules; built as lalr.Grammar. Reference: LALR(1) automaton by canonical LR(1)+merge, each shift/reduce cell decided by the documented rule (rule precedence = %prec terminal else last terminal; higher group wins; equal: left reduce, right shift, nonassoc error; undeclared side or eoi lookahead => conflict, default shift; reduce/reduce => conflict, earlier rule). Cells with one shift and one reduction and reduction-only cells are compared exactly, cells with a shift and several reductions by a validity predicate (shift; the %nonassoc error if some rule ties with a nonassoc lookahead; a reduction only if precedence makes that rule win against the shift); SR/RR and the %expect error are compared when no such mixed cell exists. Non-trivial: at least one cell decided by precedence; distinct by grammar JSON.",
 		Assume: []string{"a terminal listed in two precedence groups is outside the domain (excluded, counted)", "the order in which several reductions are compared with a shift is not fixed by the statement: validity predicate only"},
-		Quick: 6000, Thorough: 120000,
+		Quick: 40000, Thorough: 400000,
 		Gen:   c04Gen,
 		Check: c04Check,
 	}
